@@ -145,14 +145,24 @@ func (b *echoBackend) handle(w http.ResponseWriter, r *http.Request) {
 		w.(http.Flusher).Flush()
 	}
 	resp := pattern(tok+"resp", pathParam(path, "b"))
-	// write in a few pieces so that the response streams
+	// write in a few pieces so that the response streams (path segment s<ms>: flushed, with a pause after each piece)
+	pace := pathParam(path, "s")
 	for len(resp) > 0 {
 		n := len(resp)
 		if n > 65536 {
 			n = 65536
 		}
-		w.Write(resp[:n])
+		if pace > 0 && n > 20000 {
+			n = 20000
+		}
+		if _, err := w.Write(resp[:n]); err != nil {
+			return
+		}
 		resp = resp[n:]
+		if pace > 0 {
+			w.(http.Flusher).Flush()
+			time.Sleep(time.Duration(pace) * time.Millisecond)
+		}
 	}
 	switch tmode {
 	case 0:
@@ -449,6 +459,39 @@ func relayVolume(res *hx.Result) {
 		one(fmt.Sprintf("/t/xprompt%05d/b%d/l0/q%d/m%d", i, []int{0, 10, 5000}[i%3], []int{0, 0, 100}[i%3], i%3), 60*time.Second)
 	})
 	promptMs := time.Since(t0).Milliseconds()
+	// history: clients that went away in the middle of a streamed response while the backend kept on sending - what
+	// such an exchange leaves behind in the proxy must not show in the responses of the clients that come afterwards
+	abandoned := 0
+	for round := 0; round < 6; round++ {
+		var awg sync.WaitGroup
+		for k := 0; k < 8; k++ {
+			awg.Add(1)
+			go func(k int) {
+				defer awg.Done()
+				c, err := net.DialTimeout("tcp", env.proxyAddr(), 5*time.Second)
+				if err != nil {
+					return
+				}
+				defer c.Close()
+				fmt.Fprintf(c, "GET /t/xgone%02d%02d/b200000/l0/q0/m2/s40 HTTP/1.1\r\nHost: svc.example\r\n\r\n", round, k)
+				c.SetReadDeadline(time.Now().Add(20 * time.Second))
+				buf := make([]byte, 4096)
+				got := 0
+				for got < 6000 {
+					n, err := c.Read(buf)
+					got += n
+					if err != nil {
+						return
+					}
+				}
+			}(k)
+		}
+		awg.Wait() // every one of them has seen the start of its body and has hung up; the backend is still sending
+		abandoned += 8
+		runConcurrently(48, 16, func(i int) {
+			one(fmt.Sprintf("/t/xafter%02d%03d/b%d/l0/q0/m%d", round, i, []int{10, 3000, 70000}[i%3], i%3), 60*time.Second)
+		})
+	}
 	for i := 0; i < window; i++ {
 		wg.Add(1)
 		go func(i int) {
@@ -462,7 +505,7 @@ func relayVolume(res *hx.Result) {
 	aEx, _ := env.agent.Exited()
 	pEx, _ := env.proxy.Exited()
 	ex, _ := example.Load().(string)
-	hx.Emit("RelayVolume", "requests", prompt+window+2, "ok", ok, "wrong", wrong, "unanswered", unanswered, "other", other,
+	hx.Emit("RelayVolume", "requests", prompt+window+2+6*48, "abandoned", abandoned, "ok", ok, "wrong", wrong, "unanswered", unanswered, "other", other,
 		"agent_alive", !aEx, "proxy_alive", !pEx, "example", ex)
 	res.Case("volume:held+prompt+window", map[string]interface{}{"prompt": prompt, "window": window, "prompt_ms": promptMs, "ok": ok})
 	res.Extra["volume"] = map[string]interface{}{"requests": prompt + window + 2, "prompt_ms": promptMs}
